@@ -1635,7 +1635,8 @@ let table =
     (X73 :: (X70 :: (X69 :: (X66 :: (X5f :: (X73 :: (X74 :: (X72 :: (X5f :: (X6e :: (X63 :: (X61 :: (X73 :: (X65 :: (X63 :: (X6d :: (X70 :: [])))))))))))))))));
     e_reach = Exported; e_ret = TCmp; e_params =
     (true :: (true :: (false :: []))); e_self = (Some O); e_slots = (S O);
-    e_parsed = true; e_prelude = (Body :: []) } :: ({ e_name =
+    e_parsed = true; e_prelude = ((CompNull (O, (S
+    O))) :: (Body :: [])) } :: ({ e_name =
     (X73 :: (X70 :: (X69 :: (X66 :: (X5f :: (X73 :: (X74 :: (X72 :: (X5f :: (X6e :: (X63 :: (X61 :: (X73 :: (X65 :: (X63 :: (X6d :: (X70 :: (X5f :: (X77 :: (X69 :: (X74 :: (X68 :: (X5f :: (X70 :: (X74 :: (X72 :: []))))))))))))))))))))))))));
     e_reach = Exported; e_ret = TCmp; e_params =
     (true :: (true :: (false :: []))); e_self = (Some O); e_slots = (S O);
@@ -4194,4 +4195,4 @@ let exempt =
 (** val table_digest : fname **)
 
 let table_digest =
-  X32 :: (X35 :: (X34 :: (X62 :: (X34 :: (X65 :: (X63 :: (X35 :: (X31 :: (X36 :: (X63 :: (X62 :: (X31 :: (X63 :: (X32 :: (X39 :: [])))))))))))))))
+  X33 :: (X33 :: (X62 :: (X62 :: (X61 :: (X66 :: (X66 :: (X38 :: (X61 :: (X32 :: (X63 :: (X64 :: (X37 :: (X63 :: (X33 :: (X61 :: [])))))))))))))))
